@@ -302,8 +302,12 @@ def XNPV(
     https://support.microsoft.com/en-us/office/
         xnpv-function-1b42bbf6-370f-4532-a0eb-d67c16b664b7
     """
-    values = values.flatten(func_xltypes.Number, None)
-    dates = dates.flatten(func_xltypes.DateTime, None)
+    # Keep every entry that is a number: a filter of None would also drop
+    # the cash flows that are 0 (and the lengths would no longer match).
+    def is_value(item):
+        return item is not None
+    values = values.flatten(func_xltypes.Number, is_value)
+    dates = dates.flatten(func_xltypes.DateTime, is_value)
 
     # TODO: Ignore non numeric cells and boolean cells.
     if len(values) != len(dates):
